@@ -626,10 +626,16 @@ def r18(ctx, P, rule='C10.18'):
             # a store into the instance whose value derives from the definition argument
             darg = defs[0].args[1]
             dname = strip_casts(darg).get('name')
-            if not any(nd.get('op') == 'ref' and nd.get('name') == dname for nd in walk(rhs)) and \
-                    not any(nd.get('op') == 'ref' and nd.get('name') == dname for nd in walk(lhs)):
-                continue
-            if not any(nd.get('op') == 'ref' and nd.get('name') == dname for nd in walk(rhs)):
+            # the definition argument and the locals computed from it
+            dnames = {dname}
+            grew = True
+            while grew:
+                grew = False
+                for d_ in fn.events():
+                    if d_.k == 'decl' and d_.e is not None and d_.name not in dnames and any(nd.get('op') == 'ref' and nd.get('name') in dnames for nd in walk(d_.e)):
+                        dnames.add(d_.name)
+                        grew = True
+            if not any(nd.get('op') == 'ref' and nd.get('name') in dnames for nd in walk(rhs)):
                 continue
             n += 1
             ctx.saw(fn, 1)
@@ -1375,3 +1381,111 @@ def r17b(ctx, P):
                    '%s still points into the old block on a success path (it is set only for a fresh object, or from another pointer that is itself stale): a use after free once realloc moves the block' % missing[0][0],
                    missing[0][1].render() if missing else None)
     ctx.note('C10.17: %d reallocations of objects with pointers into themselves' % n)
+
+
+# --------------------------------------------------------------------------- C10.30
+
+def r30(ctx, P, sess):
+    """32-bit products over definition parameters stay below 2^32 for every accepted definition"""
+    import re
+    from ..export import macros
+    mac = macros(sess.repo, 'core.c')
+    v = mac.get('SIGNAL_DEF_PARAM_MAX')
+    lim = None
+    if v is not None:
+        m = re.fullmatch(r'\(?\s*1U?\s*<<\s*(\d+)\s*\)?', v.strip())
+        if m:
+            lim = 1 << int(m.group(1))
+        elif re.fullmatch(r'\(?\d+U?\)?', v.strip()):
+            lim = int(v.strip('()U '))
+    if lim is None:
+        raise AnalysisBroken('SIGNAL_DEF_PARAM_MAX not a plain constant: %r' % v)
+    # the validator compares the four parameters with it
+    val = P.fn('jls_core_signal_def_validate')
+    FIELDS = ('samples_per_data', 'sample_decimate_factor', 'entries_per_summary', 'summary_decimate_factor')
+    cmp_fields = set()
+    for b in val.blocks.values():
+        c = strip_casts(b.cond) if b.cond is not None else None
+        if c is not None and c.get('op') == 'bin' and c['o'] in ('>', '>=') and (strip_casts(c['k'][1]).get('m') == 'SIGNAL_DEF_PARAM_MAX' or c['k'][1].get('m') == 'SIGNAL_DEF_PARAM_MAX' or const_of(c['k'][1]) == lim):
+            for nd in walk(c['k'][0]):
+                if nd.get('op') == 'member' and nd.get('field') in FIELDS:
+                    cmp_fields.add(nd['field'])
+    M = 2 * lim
+    if set(FIELDS) - cmp_fields:
+        # another rule (C10.11 / C16) reports the missing bound; here the parameters are simply unbounded 32-bit values
+        ctx.note('C10.30: the validator does not bound %s by SIGNAL_DEF_PARAM_MAX: evaluated with 2^32 - 1' % sorted(set(FIELDS) - cmp_fields))
+        M = (1 << 32) - 1
+    n = 0
+    for fn in P.all_functions():
+        if fn.file not in ('src/wr_fsr.c', 'src/core.c', 'src/writer.c', 'src/reader.c'):
+            continue
+
+        def ub(e, depth=0):
+            """(upper bound, involves a definition parameter) or None"""
+            if e is None or depth > 12:
+                return None
+            e0 = e
+            while e0.get('op') == 'paren':
+                e0 = e0['k'][0]
+            c = const_of(e0)
+            if c is not None and e0.get('op') in ('lit', 'sizeof', 'ref', 'un', 'bin', 'cast'):
+                if isinstance(c, int) and c >= 0:
+                    return (c, False)
+            op = e0.get('op')
+            if op == 'cast':
+                r = ub(e0['k'][0], depth + 1)
+                if r is None:
+                    return None
+                t = e0.get('t') or ''
+                bits = int(t[1:]) if t[:1] in 'ui' and t[1:].isdigit() else None
+                return (min(r[0], (1 << bits) - 1) if bits and not e0.get('impl') else r[0], r[1])
+            if op == 'member':
+                if e0.get('field') in FIELDS:
+                    return (M, True)
+                if e0.get('field') in ('entry_size_bits',):
+                    return (256, False)
+                return None
+            if op == 'call':
+                if e0.get('callee') in ('jls_datatype_parse_size', 'sample_size_bits'):
+                    return (64, False)
+                return None
+            if op == 'ref' and e0.get('rk') == 'local':
+                ds = [ev for ev in fn.events() if ev.k == 'decl' and ev.name == e0['name'] and ev.e is not None]
+                st = [ev for ev in fn.stores() if ev.k == 'store' and strip_casts(ev.store_parts()[0]).get('name') == e0['name']]
+                if len(ds) == 1 and not st:
+                    return ub(ds[0].e, depth + 1)
+                return None
+            if op == 'bin':
+                a, b = ub(e0['k'][0], depth + 1), ub(e0['k'][1], depth + 1)
+                o = e0['o']
+                if o == '/' and a is not None:
+                    return a
+                if o == '%' and b is not None:
+                    return (max(b[0] - 1, 0), b[1])
+                if a is None or b is None:
+                    return None
+                if o == '+':
+                    return (a[0] + b[0], a[1] or b[1])
+                if o == '*':
+                    return (a[0] * b[0], a[1] or b[1])
+                if o == '-':
+                    return a
+                if o == '>>':
+                    return a
+            return None
+        for b in fn.blocks.values():
+            for ev in b.events:
+                e = getattr(ev, 'e', None)
+                if e is None:
+                    continue
+                for nd in walk(e):
+                    if nd.get('op') == 'bin' and nd['o'] == '*' and (nd.get('t') or '') in ('u32', 'i32'):
+                        r = ub(nd)
+                        if r is None or not r[1]:
+                            continue
+                        n += 1
+                        ctx.saw(fn, 1)
+                        ctx.ob('C10.30', r[0] < (1 << 32), fn.name, '32-bit product %s' % show(nd)[:50], ev.where(),
+                               'at most %d (parameters up to %d, 64-bit samples)' % (r[0], M) if r[0] < (1 << 32) else
+                               'the product can reach %d >= 2^32 for a definition the validator accepts (parameters up to %d after alignment): the size wraps, the buffer is far smaller than the block, and the first samples written overflow it' % (r[0], M))
+    ctx.floor('32-bit products over definition parameters', n, 2)
